@@ -25,10 +25,8 @@ import (
 	"fmt"
 	"net"
 	"os"
-	"regexp"
 	"runtime"
 	"sort"
-	"strconv"
 	"strings"
 	"sync"
 	"sync/atomic"
@@ -415,24 +413,36 @@ func (x *runC) runSink() {
 
 // slotPort hands out the ports of the three proxy slots.  A slot stays unbound for long
 // stretches of a case (until some operator adds it), so an ephemeral port would invite
-// another process (another shard of this very check) to bind it meanwhile, and our client
-// would then talk to a foreign proxy.  Slots therefore come from below the ephemeral range
-// (12000-31999), one block of 1000 ports per shard (the driver runs shard i in .../run-c-i).
+// another process (another shard of this very check, or a second run of it) to bind it
+// meanwhile, and our client would then talk to a foreign proxy.  Slots therefore come from
+// below the ephemeral range: 12000-31999 is cut into 40 blocks of 500 ports, and a process
+// owns the block whose lock port (11900+block) it managed to bind for its lifetime.
 var (
 	slotBlock = -1
+	slotLock  net.Listener
 	slotSeq   int
 )
 
 func slotPort() string {
+	if slotBlock == -2 {
+		return ""
+	}
 	if slotBlock < 0 {
-		slotBlock = os.Getpid() % 20
-		if m := regexp.MustCompile(`run-[a-z]+-(\d+)$`).FindStringSubmatch(os.Getenv("VERIF_OUT")); m != nil {
-			n, _ := strconv.Atoi(m[1])
-			slotBlock = n % 20
+		start := os.Getpid() % 40
+		for i := 0; i < 40; i++ {
+			b := (start + i) % 40
+			if l, err := net.Listen("tcp4", fmt.Sprintf("127.0.0.1:%d", 11900+b)); err == nil {
+				slotBlock, slotLock = b, l
+				break
+			}
+		}
+		if slotBlock < 0 {
+			slotBlock = -2 // 40 other processes of this check are running
+			return ""
 		}
 	}
 	slotSeq++
-	p := 12000 + slotBlock*1000 + slotSeq%1000
+	p := 12000 + slotBlock*500 + slotSeq%500
 	l, err := net.Listen("tcp4", fmt.Sprintf("0.0.0.0:%d", p))
 	if err != nil {
 		return ""
@@ -467,7 +477,7 @@ func runC1(c CaseC) (v *core.Violation) {
 	x := &runC{f: newFixture(), answered: map[uint32]bool{}, answeredOK: map[uint32]bool{}, agentClosed: map[uint32]bool{},
 		seenAt: map[uint32]int64{}, fwdOpen: map[uint32]bool{}, fwdDialled: map[uint32]bool{}}
 	var err error
-	x.sink, err = net.Listen("tcp4", "127.0.0.1:0")
+	x.sink, err = core.ListenLoopback("tcp4")
 	if err != nil {
 		return skip("no-port")
 	}
@@ -476,6 +486,7 @@ func runC1(c CaseC) (v *core.Violation) {
 	defer func() {
 		for _, cc := range x.conns {
 			if cc.conn != nil {
+				cc.conn.SetLinger(0) // no TIME_WAIT left behind
 				cc.conn.Close()
 			}
 		}
